@@ -463,7 +463,11 @@ func (x *scopeCtx) runSet(cavs []macaroon.Caveat, ops scSetOps, actions []resset
 		o.emit("(scope.cluster "+C+")", res)
 		switch {
 		case scope == nil:
-			x.stat("cluster.nil")
+			if len(clusters) == 0 {
+				x.stat("cluster.nil.nocaveat")
+			} else {
+				x.stat("cluster.nil.wildcard")
+			}
 		case len(scope) == 0:
 			x.stat("cluster.empty")
 		case scHasStr(scope, ""):
@@ -707,7 +711,7 @@ func famScope(r *Rng, o *Out, tier string) {
 	x := &scopeCtx{r: r, o: o, wnow: time.Now().Unix()}
 	thorough := tier == "thorough"
 
-	// fixed cases first: the documented examples and the candidate finding F11
+	// fixed cases first: the documented examples and the witness of F11 (repaired)
 	fixed := [][]macaroon.Caveat{
 		{},
 		{&flyio.Organization{ID: 1, Mask: 31}},
